@@ -832,7 +832,8 @@ func (m *LinearBlockMetadata) cleanupAfterFree() {
 	}
 
 	if m.shouldCompactFirstVector() {
-		nonNullItemCount := len(firstVector) - nullItemsCount
+		// Null items may have been trimmed from the end of the vector above, so use the current counts
+		nonNullItemCount := len(firstVector) - m.firstNullItemsBeginCount - m.firstNullItemsMiddleCount
 		srcIndex := m.firstNullItemsBeginCount
 		for dstIndex := 0; dstIndex < nonNullItemCount; dstIndex++ {
 			for firstVector[srcIndex].Type == 0 {
